@@ -9,6 +9,7 @@ from __future__ import annotations
 
 import hashlib
 import hmac
+import io
 import logging
 import os
 import pickle
@@ -261,6 +262,25 @@ class DiskCache:
         self._cache.set(key + self._HMAC_SUFFIX, value_hmac)
 
 
+def _pickle_by_value(obj: Any) -> bytes:
+    """Pickle ``obj`` so that equal values give equal bytes.
+
+    The default pickler writes the second occurrence of an object as a back-reference,
+    so the bytes depend on which sub-objects happen to be the *same* object (an input
+    string that also sits inside an upstream result, a value restored from another cache
+    entry). Without the memo the bytes depend on the values only. Self-referential
+    values need the memo and fall back to the default pickler.
+    """
+    buffer = io.BytesIO()
+    pickler = pickle.Pickler(buffer)
+    pickler.fast = True
+    try:
+        pickler.dump(obj)
+    except (ValueError, RecursionError):
+        return pickle.dumps(obj)
+    return buffer.getvalue()
+
+
 def compute_cache_key(definition_hash: str, inputs: dict[str, Any]) -> str:
     """Compute a cache key from node identity and input values.
 
@@ -273,7 +293,7 @@ def compute_cache_key(definition_hash: str, inputs: dict[str, Any]) -> str:
     """
     try:
         sorted_items = sorted(inputs.items())
-        inputs_bytes = pickle.dumps(sorted_items)
+        inputs_bytes = _pickle_by_value(sorted_items)
     except (pickle.PicklingError, TypeError, AttributeError) as exc:
         logger.warning("Cache miss: inputs not picklable (%s)", exc)
         return ""
